@@ -788,6 +788,8 @@ pub fn c16_strategy(transports: BoxedStrategy<Transport>) -> BoxedStrategy<ConvC
         // 1, 4, 8, 16, 64 KiB): a line counts as a whole, however long it is
         1 => (proptest::sample::select(vec![100usize, 1020, 4090, 8185, 9000, 16400, 70000]), proptest::sample::select(vec![" ", "\t"]), proptest::sample::select(vec!["x", ", 40", " 6", "+", ",", "5 5"]))
             .prop_map(|(n, ws, tail)| (3u8, 0u8, format!("5{}{}", ws.repeat(n), tail))),
+        // two Content-Length lines, both plain numbers, that say different things
+        1 => (0u8..2).prop_map(|o| (5u8, 0u8, if o == 0 { String::new() } else { "x".to_string() })),
     ];
     (1usize..=3, any::<proptest::sample::Index>(), kind, headers_strategy(3), transports, any::<bool>(), proptest::collection::vec(small_respond(), 3))
         .prop_map(|(n, at, (kind, target, text), headers, transport, fold_first, fins)| {
@@ -830,7 +832,30 @@ pub fn c16_strategy(transports: BoxedStrategy<Transport>) -> BoxedStrategy<ConvC
                     // position: first header line or a later one (obs-fold when whitespace leads)
                     let pos = if fold_first && fillers == 0 { 0 } else { r.headers.len() };
                     r.headers.insert(pos, Hdr::new(hname, &hvalue));
+                    // a bad Content-Length line may stand beside a good one, before or after it: every
+                    // line counts, whichever a parser would pick
+                    let mut pos = pos;
+                    if kind == 3 && (text.len() + n + headers.len()) % 3 == 0 {
+                        let good = Hdr::new("Content-Length", &[0usize, smuggled.len()][(text.len() + n) % 2].to_string());
+                        if (text.len() / 2 + headers.len()) % 2 == 0 {
+                            r.headers.insert(pos, good);
+                            pos += 1;
+                        } else {
+                            r.headers.insert(pos + 1, good);
+                        }
+                    }
+                    if kind == 5 {
+                        // (the line at `pos` names the length of what follows; the other one says 0)
+                        let other = Hdr::new("Content-Length", "0");
+                        if text.is_empty() {
+                            r.headers.insert(pos, other);
+                            pos += 1;
+                        } else {
+                            r.headers.insert(pos + 1, other);
+                        }
+                    }
                     r.mal = Some(match kind {
+                        5 => Malform::ContentLengthLinesDisagree { at: pos },
                         4 => Malform::HeaderNoColon { at: pos, text: text.clone() },
                         0 => Malform::WsBeforeName { at: pos, ws: text.clone() },
                         1 => Malform::WsInName { at: pos, ws: text.clone() },
